@@ -131,6 +131,8 @@ def _concrete(v, depth=0):
         return True
     if isinstance(v, _pathlib.PurePath):
         return True
+    if type(v).__name__ == 'deque':
+        return True
     if isinstance(v, (list, set)):
         return True
     if isinstance(v, dict):
@@ -799,6 +801,8 @@ class FDE:
     def _marker_iter(self, it, what):
         """iteration over a marker tuple of the evaluator (a class, a closure, ...): an enum class yields its members in definition
         order; anything else is not an iterable the evaluator models"""
+        if type(it).__name__ == 'deque':
+            return list(it)
         if isinstance(it, Obj) and it.f.get('_fde_storage') and isinstance(it.f.get('_children'), dict):
             # a container node whose built-in storage the rule declares to be in step with its child map (C17): a list node iterates
             # over its elements in index order, a mapping node over its keys
@@ -879,6 +883,8 @@ class FDE:
             if not isinstance(d, dict):
                 raise Unsupported('subscript store on %r' % (d,))
             d[k] = v
+        elif isinstance(t, (ast.Tuple, ast.List)) and type(v).__name__ == 'deque':
+            self._assign(t, list(v), env, fi)
         elif isinstance(t, (ast.Tuple, ast.List)) and sum(isinstance(x, ast.Starred) for x in t.elts) == 1 \
                 and (isinstance(v, list) or (isinstance(v, tuple) and not (v and isinstance(v[0], str) and v[0] in ('class', 'ext', 'kind', 'closure', 'unbound', 'partial'))) or type(v).__name__ in _ITER_TYPES):
             vs = list(_guarded_iter(v)) if not isinstance(v, (list, tuple)) else list(v)
@@ -1025,7 +1031,7 @@ class FDE:
             return ('strmethod', base, attr)
         if isinstance(base, bytes) and not attr.startswith('_') and hasattr(bytes, attr):
             return ('strmethod', base, attr)
-        if isinstance(base, (list, set)) and not attr.startswith('_') and hasattr(base, attr):
+        if (isinstance(base, (list, set)) or type(base).__name__ == 'deque') and not attr.startswith('_') and hasattr(base, attr):
             return ('listmethod', base, attr)
         if (base is None or isinstance(base, (str, int, float, bytes, list, dict, set))) and not hasattr(base, attr):
             raise Raised('AttributeError')       # a plain Python value simply does not have it
@@ -1065,6 +1071,19 @@ class FDE:
                     if key not in self.class_objs:
                         import collections as _c
                         self.class_objs[key] = ('ntclass', _c.namedtuple(e.id.lstrip('_') or 'Record', nt_fields, rename=True))
+                    return self.class_objs[key]
+                if isinstance(g, (ast.Call, ast.GeneratorExp, ast.ListComp, ast.BinOp)) and fi.module.constant_binding(e.id) is g and e.id.startswith('_') \
+                        and any(isinstance(x, ast.Call) and unparse(x.func) in ('dataclasses.fields', 'fields') for x in ast.walk(g)):
+                    # a private module constant derived from the fields of a record class: evaluated once, in module scope
+                    key = ('global', fi.module.relpath, e.id)
+                    if key not in self.class_objs:
+                        from .srcmodel import FuncInfo
+                        self.class_objs[key] = self._ev(g, {}, fi)
+                    return self.class_objs[key]
+                if isinstance(g, ast.Call) and isinstance(g.func, ast.Name) and g.func.id == 'object' and not g.args and not g.keywords and fi.module.constant_binding(e.id) is g:
+                    key = ('global', fi.module.relpath, e.id)
+                    if key not in self.class_objs:
+                        self.class_objs[key] = Opaque('sentinel %s' % e.id)       # a module-level `NAME = object()`: one unique object, compared by identity
                     return self.class_objs[key]
                 if isinstance(g, (ast.Dict, ast.List, ast.Tuple, ast.Constant, ast.Set)):
                     key = ('global', fi.module.relpath, e.id)
@@ -1193,6 +1212,9 @@ class FDE:
                 if isinstance(left, Opaque) or isinstance(right, Opaque):
                     if isinstance(op, (ast.Is, ast.IsNot)) and (left is None or right is None or left is right):
                         pass
+                    elif isinstance(op, (ast.Is, ast.IsNot)) and any(isinstance(x, Opaque) and x.name.startswith('sentinel ') for x in (left, right)) \
+                            and not (isinstance(left, Opaque) and isinstance(right, Opaque) and not (left.name.startswith('sentinel ') and right.name.startswith('sentinel '))):
+                        pass      # a module-level sentinel object is identical only to itself: concrete values and node objects are other objects
                     else:
                         raise Unsupported('comparison with opaque value: ' + unparse(e))
                 r = self._cmp(op, left, right)
@@ -1584,17 +1606,40 @@ class FDE:
             if kind_ == 'nullcontext' and len(args) <= 1:
                 return SimpleCM('nullcontext', args[0] if args else None)
             raise Unsupported('call of %s' % unparse(f))
+        if unparse(f) in ('dataclasses.fields', 'fields') and not (isinstance(f, ast.Name) and f.id in env) and len(args) == 1 and not kwargs \
+                and isinstance(args[0], tuple) and len(args[0]) == 2 and args[0][0] in ('ntclass', 'class'):
+            import collections as _coll
+            F_ = _coll.namedtuple('Field', ['name'])
+            if args[0][0] == 'ntclass':
+                names_ = args[0][1]._fields
+            else:
+                ci_ = self.repo.classes.get(args[0][1])
+                if ci_ is None or not any(unparse(d).split('(')[0] in ('dataclass', 'dataclasses.dataclass') for d in ci_.node.decorator_list):
+                    raise Unsupported('dataclasses.fields of %r' % (args[0],))
+                names_ = [st.target.id for st in ci_.node.body if isinstance(st, ast.AnnAssign) and isinstance(st.target, ast.Name) and 'ClassVar' not in unparse(st.annotation)]
+            return tuple(F_(n_) for n_ in names_)       # the fields of a record class, in declaration order
+        if unparse(f) in ('itertools.starmap', 'starmap') and not (isinstance(f, ast.Name) and f.id in env) and len(args) == 2 and not kwargs \
+                and (isinstance(args[1], (list, tuple)) or type(args[1]).__name__ in _ITER_TYPES) and (fi is None or isinstance(f, ast.Attribute) or str(fi.module.imports.get(f.id, '')).startswith('itertools')):
+            fn_ = args[0]
+            lazy_ = not isinstance(args[1], (list, tuple))
+
+            def star_(xs=args[1]):
+                for x_ in (_guarded_iter(xs) if lazy_ else xs):
+                    if not isinstance(x_, (list, tuple)):
+                        raise Unsupported('starmap over non-sequence elements')
+                    yield self._apply(fn_, list(x_), {}, e)
+            return star_() if lazy_ else list(star_())
         if unparse(f) in ('itertools.repeat', 'repeat') and not (isinstance(f, ast.Name) and f.id in env) and len(args) == 2 and not kwargs and isinstance(args[1], int) \
                 and not isinstance(args[1], bool) and (fi is None or isinstance(f, ast.Attribute) or str(fi.module.imports.get(f.id, '')).startswith('itertools')):
             return [args[0]] * max(args[1], 0)       # itertools.repeat(x, n): n times the same object
         if unparse(f) in ('collections.deque', 'deque') and not (isinstance(f, ast.Name) and f.id in env) and len(args) <= 2 \
                 and (not args or isinstance(args[0], (list, tuple)) or type(args[0]).__name__ in _ITER_TYPES) and set(kwargs) <= {'maxlen'}:
-            # a deque filled once from an iterable: the (last maxlen) elements, as a list (the input is consumed completely)
             items_ = list(_guarded_iter(args[0])) if args else []
             ml_ = kwargs.get('maxlen', args[1] if len(args) > 1 else None)
             if ml_ is not None and not isinstance(ml_, int):
                 raise Unsupported('deque with a non-concrete maxlen')
-            return items_ if ml_ is None else items_[len(items_) - ml_:] if ml_ and len(items_) > ml_ else ([] if ml_ == 0 else items_)
+            import collections as _coll
+            return _coll.deque(items_, maxlen=ml_)       # a real deque of the (possibly abstract) elements: it only rearranges them
         if unparse(f) in _PURE_ITER and not kwargs and not (isinstance(f, ast.Name) and f.id in env) \
                 and all(isinstance(a, (list, tuple, dict, set, int)) or type(a).__name__ in _ITER_TYPES for a in args):
             return _PURE_ITER[unparse(f)](*args)
@@ -1757,7 +1802,7 @@ class FDE:
                 if n in ('list', 'tuple') and isinstance(args[0], (list, tuple, dict, set, frozenset, str, bytes)) \
                         and not (isinstance(args[0], tuple) and args[0] and isinstance(args[0][0], str) and args[0][0] in ('class', 'ext', 'kind', 'closure', 'unbound', 'partial')):
                     return list(args[0]) if n == 'list' else tuple(args[0])
-                if n == 'len' and isinstance(args[0], (dict, list, tuple, str, bytes, set, frozenset)):
+                if n == 'len' and (isinstance(args[0], (dict, list, tuple, str, bytes, set, frozenset)) or type(args[0]).__name__ == 'deque'):
                     return len(args[0])
                 if n == 'len' and isinstance(args[0], Obj) and isinstance(args[0].f.get('_children'), dict) and args[0].cls in self.repo.classes and ({'dict', 'list'} & set(self.repo.mro(args[0].cls))):
                     return len(args[0].f['_children'])      # a container node with a concrete child map (two stores in step)
